@@ -759,6 +759,7 @@ func (e *Engine) strConcat(st *State, a, b StrV) Value {
 		e.assume(st, Forall([]string{v}, And(
 			Implies(And(Le(I(0), k), Lt(k, e.slen(a.t))), Eq(e.sbyte(r, k), e.sbyte(a.t, k))),
 			Implies(And(Le(e.slen(a.t), k), Lt(k, e.slen(r))), Eq(e.sbyte(r, k), e.sbyte(b.t, Sub(k, e.slen(a.t))))))), "string concatenation bytes")
+		e.numeralConcat(st, r, a.t, b.t)
 	}
 	return StrV{r}
 }
@@ -1116,6 +1117,7 @@ func (e *Engine) substr(st *State, s, lo, hi T) Value {
 			k := T{v, SInt}
 			e.assume(st, Forall([]string{v}, Implies(And(Le(I(0), k), Lt(k, Sub(hi, lo))), Eq(e.sbyte(r, k), e.sbyte(s, Add(lo, k))))), "substring bytes")
 		}
+		e.numeralSubstr(st, r, s, lo, hi)
 	}
 	return StrV{r}
 }
